@@ -56,6 +56,13 @@ def config_lines(sr, cfg):
         sr.do('join uP U %s' % hx(b'p'))
         sr.do('create_dir uP')
         sr.do('fs R alt uP')
+    elif cfg == 'phys':
+        sr.do('fs R phys')
+    elif cfg == 'alt_phys':
+        sr.do('fs U phys')
+        sr.do('join uP U %s' % hx(b'p'))
+        sr.do('create_dir uP')
+        sr.do('fs R alt uP')
     elif cfg in ('ovl_upper', 'ovl_lower'):
         sr.do('fs L0 mem')
         sr.do('fs L1 mem')
